@@ -173,6 +173,15 @@ func runC11(c *Ctx) {
 	// the composer applies a validated ietf-json-patch through the library only: no other code path produces document
 	// bytes from an operation (the pointer rules above are rules about what the *library* does with a pointer)
 	c.jsonPatchFoldRule("C11.X3")
+	// … and what a JSON patch produced is what the next patch sees: the fold over the list hands each result to the
+	// next step and to nothing that may store into it (a "carry the keys over" step between two patches restores or
+	// replaces keys and services outside the dedicated actions)
+	c.applyPatchesFoldRule("C10.P1")
+	// validator and composer read the operations of one patch through the same accessor: it hands back exactly the member
+	// stored under the action's value key (a case-tolerant fallback that ranges over the map can hand each of them a
+	// different member)
+	_, cfgFn := c.actionValueKeys()
+	c.patchAccessorRules(cfgFn)
 	// the composer computes each result from the document and the patch it is given, and from nothing it remembered:
 	// a result cache that hands out a remembered document lets a later key / service action rewrite what a JSON patch
 	// "produces"
